@@ -49,7 +49,7 @@ instance decAdmissibleTrace (c : Cfg) : (s : St) → (tl : List (Nat × Op)) →
     by unfold AdmissibleTrace; exact inferInstance
 
 theorem inv_init (c : Cfg) (rhr srhr : List Ans) : Inv c { rhr := rhr, srhr := srhr } :=
-  Or.inr (Or.inl ⟨rfl, rfl, rfl, rfl, rfl, rfl, rfl⟩)
+  Or.inr (Or.inl ⟨rfl, Or.inl rfl, rfl, rfl, rfl, rfl, rfl⟩)
 
 theorem inv_runOps (c : Cfg) (hsec : 0 < c.sec) (s : St) (tl : List (Nat × Op))
     (h : Inv c s) (hadm : AdmissibleTrace c s tl) : Inv c (runOps c s tl) := by
@@ -160,16 +160,36 @@ theorem no_pong_preserved (c : Cfg) (s : St) (now : Nat) (op : Op) (hop : op ≠
     by_cases h1 : s.status = .closed
     · rw [if_pos h1]; exact Or.inr h
     · rw [if_neg h1]
+      by_cases hu : s.unusable = true
+      · rw [if_pos hu]; exact hcl _
+      rw [if_neg hu]
       by_cases h2 : s.auth = true
       · rw [if_pos h2]; exact hcl _
       · rw [if_neg h2]
         right
         rw [(schedule_keeps _).1, (schedule_keeps _).2.1]; exact h
+  | connectFail =>
+    simp only [step]
+    by_cases h1 : s.status = .closed
+    · rw [if_pos h1]; exact Or.inr h
+    · rw [if_neg h1]
+      by_cases hu : s.unusable = true
+      · rw [if_pos hu]; exact hcl _
+      rw [if_neg hu]
+      by_cases h2 : s.auth = true
+      · rw [if_pos h2]; exact hcl _
+      · rw [if_neg h2]
+        by_cases h3 : c.uni = true
+        · rw [if_pos h3]; exact hcl _
+        · rw [if_neg h3]; exact Or.inr h
   | refresh a =>
     simp only [step]
     by_cases h1 : s.status = .closed
     · rw [if_pos h1]; exact Or.inr h
     · rw [if_neg h1]
+      by_cases hu : s.unusable = true
+      · rw [if_pos hu]; exact hcl _
+      rw [if_neg hu]
       by_cases h2 : (!s.auth) = true
       · rw [if_pos h2]; exact hcl _
       · rw [if_neg h2]
@@ -208,6 +228,9 @@ theorem no_pong_preserved (c : Cfg) (s : St) (now : Nat) (op : Op) (hop : op ≠
     by_cases h1 : s.status = .closed
     · rw [if_pos h1]; exact Or.inr h
     · rw [if_neg h1]
+      by_cases hu : s.unusable = true
+      · rw [if_pos hu]; exact hcl _
+      rw [if_neg hu]
       by_cases h2 : (!s.auth) = true
       · rw [if_pos h2]; exact hcl _
       · rw [if_neg h2]
@@ -219,6 +242,9 @@ theorem no_pong_preserved (c : Cfg) (s : St) (now : Nat) (op : Op) (hop : op ≠
     by_cases h1 : s.status = .closed
     · rw [if_pos h1]; exact Or.inr h
     · rw [if_neg h1]
+      by_cases hu : s.unusable = true
+      · rw [if_pos hu]; exact hcl _
+      rw [if_neg hu]
       by_cases h2 : (!s.auth) = true
       · rw [if_pos h2]; exact hcl _
       · rw [if_neg h2]
@@ -254,7 +280,7 @@ theorem no_pong_disconnects (c : Cfg) (s : St) (now d : Nat)
   simp only [hdn, if_false, hcl]
   unfold fireOp
   show ((match s.timerOp with
-    | .stale => if !s.auth then close { s with armed := none } dStale else ({ s with armed := none }, [])
+    | .stale => if (!s.auth || s.unusable) = true then close { s with armed := none } dStale else ({ s with armed := none }, [])
     | .presence => presenceTick c { s with armed := none } now
     | .expire => expire c { s with armed := none } now
     | .ping => sendPing c { s with armed := none } now
@@ -277,7 +303,7 @@ theorem pong_in_time_survives (c : Cfg) (s : St) (now d : Nat)
   simp only [hdn, if_false, hcl]
   unfold fireOp
   show ((match s.timerOp with
-    | .stale => if !s.auth then close { s with armed := none } dStale else ({ s with armed := none }, [])
+    | .stale => if (!s.auth || s.unusable) = true then close { s with armed := none } dStale else ({ s with armed := none }, [])
     | .presence => presenceTick c { s with armed := none } now
     | .expire => expire c { s with armed := none } now
     | .ping => sendPing c { s with armed := none } now
@@ -289,31 +315,54 @@ theorem pong_in_time_survives (c : Cfg) (s : St) (now d : Nat)
 
 /-- the pong command: accepted only while a ping is outstanding; then `lastSeen = now` -/
 theorem pong_accepted (c : Cfg) (s : St) (now : Nat) (hst : s.status = .connected) (hau : s.auth = true)
-    (hping : s.lastPing ≠ 0) (hnp : s.ponged = false) :
+    (hus : s.unusable = false) (hping : s.lastPing ≠ 0) (hnp : s.ponged = false) :
     (step c s now .pong).1.lastSeen = now ∧ (step c s now .pong).1.lastPing = s.lastPing ∧
     (step c s now .pong).2 = [] := by
   have hcl : ¬ s.status = .closed := by rw [hst]; decide
-  simp [step, hcl, hau, hping, hnp]
+  simp [step, hcl, hau, hus, hping, hnp]
 
 /-! ### stale -/
 
 /-- **stale_closed_after_delay** (a): `NewClient` at `t0` arms the stale timer for `t0 + delay`; when it
-fires on a connection that has not authenticated, the connection is closed with DisconnectStale. -/
-theorem stale_closed_after_delay (c : Cfg) (s : St) (t0 now : Nat) (hstale : 0 < c.staleDelay)
-    (hst : s.status = .connecting) (hau : s.auth = false) (hnow : t0 + c.staleDelay ≤ now) :
-    let s1 := (step c s t0 .new).1
-    s1.armed = some (t0 + c.staleDelay) ∧ s1.timerOp = .stale ∧
-    (fire c s1 now).2 = [.disc dStale] ∧ (fire c s1 now).1.status = .closed := by
+fires on a connection that has not successfully connected — not authenticated, OR marked `unusable` because
+its connect command was answered with an error (even after authentication) — the connection is closed with
+DisconnectStale. -/
+theorem stale_closed_after_delay (c : Cfg) (s : St) (now d : Nat)
+    (harm : s.armed = some d) (hd : d ≤ now) (hop : s.timerOp = .stale)
+    (hst : s.status = .connecting) (hnc : s.auth = false ∨ s.unusable = true) :
+    (fire c s now).2 = [.disc dStale] ∧ (fire c s now).1.status = .closed := by
   have hcl : ¬ s.status = .closed := by rw [hst]; decide
-  have hdn : ¬ t0 + c.staleDelay > now := by omega
-  have hs1 : (step c s t0 .new).1 = { s with timerOp := .stale, armed := some (t0 + c.staleDelay) } := by
-    simp [step, hstale]
-  rw [hs1]
-  refine ⟨rfl, rfl, ?_⟩
+  have hdn : ¬ d > now := by omega
+  have hcond : (!s.auth || s.unusable) = true := by rcases hnc with h | h <;> simp [h]
   unfold fire
+  rw [harm]
   simp only [hdn, if_false, hcl]
-  unfold fireOp close
-  simp [hau, hcl]
+  unfold fireOp
+  show ((match s.timerOp with
+    | .stale => if (!s.auth || s.unusable) = true then close { s with armed := none } dStale else ({ s with armed := none }, [])
+    | .presence => presenceTick c { s with armed := none } now
+    | .expire => expire c { s with armed := none } now
+    | .ping => sendPing c { s with armed := none } now
+    | .pong => checkPong { s with armed := none })).2 = _ ∧ _
+  rw [hop]
+  simp only [hcond, if_true]
+  unfold close
+  simp [hcl]
+
+/-- `NewClient` arms exactly that timer -/
+theorem new_arms_stale (c : Cfg) (s : St) (t0 : Nat) (hstale : 0 < c.staleDelay) :
+    (step c s t0 .new).1.armed = some (t0 + c.staleDelay) ∧ (step c s t0 .new).1.timerOp = .stale := by
+  simp [step, hstale]
+
+/-- a connect that fails after authentication leaves the connection authenticated but `unusable`, still
+`connecting`, with the stale timer untouched: the stale close above applies to it. -/
+theorem connect_fail_marks_unusable (c : Cfg) (s : St) (now : Nat) (hst : s.status = .connecting)
+    (hau : s.auth = false) (hus : s.unusable = false) (hbi : c.uni = false) :
+    let s' := (step c s now .connectFail).1
+    s'.unusable = true ∧ s'.auth = true ∧ s'.status = .connecting ∧ s'.armed = s.armed ∧ s'.timerOp = s.timerOp ∧
+    (step c s now .connectFail).2 = [.err eExpired] := by
+  have hcl : ¬ s.status = .closed := by rw [hst]; decide
+  simp [step, hcl, hau, hus, hbi, hst]
 
 /-- **stale_closed_after_delay** (b): once authenticated (any state satisfying the invariant), no timer
 firing ever closes the connection with DisconnectStale. -/
@@ -331,7 +380,7 @@ theorem stale_not_after_auth (c : Cfg) (s : St) (now : Nat) (hinv : Inv c s) (hs
     · simp only [hd, if_false, hcl]
       unfold fireOp
       show Out.disc dStale ∉ ((match s.timerOp with
-        | .stale => if !s.auth then close { s with armed := none } dStale else ({ s with armed := none }, [])
+        | .stale => if (!s.auth || s.unusable) = true then close { s with armed := none } dStale else ({ s with armed := none }, [])
         | .presence => presenceTick c { s with armed := none } now
         | .expire => expire c { s with armed := none } now
         | .ping => sendPing c { s with armed := none } now
@@ -408,10 +457,11 @@ theorem refreshed_moves_deadline (c : Cfg) (s : St) (now : Nat) (d : Int) (hd : 
   split <;> simp [hst]
 
 theorem refresh_command_refreshes (c : Cfg) (s : St) (now : Nat) (d : Int) (hd : 0 < d)
-    (hst : s.status = .connected) (hau : s.auth = true) (hrh : c.hasRH = true) (hcsr : c.csr = true) :
+    (hst : s.status = .connected) (hau : s.auth = true) (hus : s.unusable = false) (hrh : c.hasRH = true)
+    (hcsr : c.csr = true) :
     step c s now (.refresh (.at d)) = (applyRefresh c s now d, [.rrefresh true d.toNat]) := by
   have hcl : ¬ s.status = .closed := by rw [hst]; decide
-  simp [step, hcl, hau, hrh, hcsr, hd]
+  simp [step, hcl, hau, hus, hrh, hcsr, hd]
 
 theorem server_refresh_refreshes (c : Cfg) (s : St) (now : Nat) (d : Int) (hd : 0 < d)
     (hst : s.status = .connected) :
@@ -469,13 +519,13 @@ theorem sub_not_expired_kept (c : Cfg) (now : Nat) (sb : SubC) (script : List An
 
 /-- (c) a client sub refresh with a stamp `d ≥ 0` s ahead replaces the subscription's expiry -/
 theorem sub_refresh_moves_expiry (c : Cfg) (s : St) (now : Nat) (ch : Nat) (d : Int) (hd : 0 ≤ d) (sb : SubC)
-    (hst : s.status = .connected) (hau : s.auth = true) (hsrh : c.hasSRH = true)
+    (hst : s.status = .connected) (hau : s.auth = true) (hus : s.unusable = false) (hsrh : c.hasSRH = true)
     (hfind : s.subs.find? (·.ch == ch) = some sb) (hcsr : sb.csr = true) :
     (step c s now (.subrefresh ch (.at d))).1.subs =
       s.subs.map (fun x => if x.ch == ch then { x with expireAt := (Int.ofNat (unix c now) + d).toNat } else x) := by
   have hcl : ¬ s.status = .closed := by rw [hst]; decide
   have hdn : ¬ d < 0 := by omega
-  simp [step, hcl, hau, hsrh, hfind, hcsr, hdn]
+  simp [step, hcl, hau, hus, hsrh, hfind, hcsr, hdn]
 
 /-! ### C36-3 (fixed): `SubRefreshReply.Expired` closes the connection with DisconnectExpired -/
 
@@ -500,6 +550,10 @@ example : (runOps cfgCSR {} [(100, .new), (300, .connect 3 536 2252), (836, .fir
 example :
     let s := runOps cfgW {} [(100, .new), (300, .connect 0 536 2252), (836, .fire)]
     s.armed = some 1236 ∧ s.timerOp = .pong ∧ s.status = .connected ∧ s.lastSeen < s.lastPing := by decide
+-- a connect that failed after authentication, then silence: closed Stale when the stale timer fires
+example :
+    let s := runOps cfgW {} [(100, .new), (300, .connectFail)]
+    s.auth = true ∧ s.unusable = true ∧ (fire cfgW s 2100).2 = [.disc dStale] := by decide
 -- PongTimeout ≥ PingInterval (documented as unsupported): the next ping fires first and moves the pong
 -- deadline, so an unanswered ping is never detected
 example :
